@@ -1,13 +1,16 @@
-\* C47 leg A quick (safety): contents {p1 (plain), e1 (references the env var)}, config dir files {a,b}, watched dir
-\* file {w}, env values {v1,v2}; every history with <= 4 changes/failing applies and any number of successful applies.
-\* Leg B: all normal-form histories of <= 3 operations ending with an apply.
+\* C47 leg A quick (safety): contents {p1 (plain), e1 (references the env var)}, config dir 1 files {a,b}, config dir 2
+\* file {c}, watched dir file {w}, env {v1, v2, unset}, tolerance for unset variables off and on; every history with
+\* <= 3 changes/failing applies and any number of successful applies.
+\* Leg B: plain histories of <= 3 operations; fault histories (prefix + 5 operations, tolerance off).
 SPECIFICATION Spec
 CONSTANTS Contents = {"p1", "e1"}
-          DirNames = {"a", "b"}
+          TwoDirs = TRUE
           WatNames = {"w"}
-          EnvVals = {"v1", "v2"}
-          Budget = 4
+          EnvVals = {"v1", "v2", "unset"}
+          TolVals = {FALSE}
+          Budget = 3
           HistLen = 3
+          FaultLen = 5
 INVARIANT OutputsFollowInputs
-PROPERTIES AppliesSatisfyProperty SummaryAgrees NoReloadOnceSynced
+PROPERTIES AppliesSatisfyProperty SummaryAgrees FailsOnlyUnderFault NoReloadOnceSynced
 CHECK_DEADLOCK FALSE
